@@ -1,6 +1,8 @@
 package main
 
 import (
+	"github.com/pion/rtcp"
+
 	"bufio"
 	"encoding/json"
 	"fmt"
@@ -474,6 +476,11 @@ func init() {
 				s.UnitDecode("delta", 1)
 			}
 		}
+		for _, sym := range []int{0, 1, 2, 3, 4, 7} {
+			for _, run := range []int{0, 1, 8191, 8192, 8193, 16384, 32768, 40000, 65535} {
+				s.UnitEncode("rl", abs.V{"ct": "rl", "typ": 0, "sym": sym, "run": run}, 1)
+			}
+		}
 		for i := 0; i < n; i++ {
 			if i%50 == 0 {
 				s.Reset()
@@ -662,5 +669,55 @@ func scriptOwn(s *exec.State, b []byte, entry string) {
 	if has(s, 2) {
 		stringOf(s, 2, 1)
 		s.Marshal(2)
+	}
+}
+
+// scriptRecombine: decode a datagram, then marshal recombinations of the returned packets (reordered,
+// subsets, repeated) and decode each result (C02: lists in order; C18: the packets are shared).
+func scriptRecombine(s *exec.State, g *gen.G, b []byte) {
+	s.Reset()
+	s.SetBuf(1, b)
+	s.Datagram(1, 2)
+	ps, ok := s.Pk[2].([]rtcp.Packet)
+	if !ok || len(ps) < 2 {
+		return
+	}
+	n := len(ps)
+	perms := [][]int{}
+	rev := make([]int, n)
+	for i := range rev {
+		rev[i] = n - 1 - i
+	}
+	perms = append(perms, rev)
+	if n >= 3 {
+		perms = append(perms, []int{0, 2, 1}, []int{0, n - 1}, []int{1, 0, 0})
+	}
+	rnd := g.R.Perm(n)
+	perms = append(perms, rnd)
+	for i, p := range perms {
+		h := 3 + i
+		s.Pick(2, h, p)
+		s.Marshal(h)
+		if s.Buf[h] != nil && len(s.Buf[h]) > 0 {
+			s.Datagram(h, 9)
+		}
+	}
+	s.Marshal(2) // the original order still marshals to the same octets
+}
+
+func init() {
+	drivers["recombine"] = func(s *exec.State, g *gen.G, n int) {
+		for i := 0; i < n; i++ {
+			k := g.Pick(2, 3, 3, 4, 5)
+			var dg []byte
+			for j := 0; j < k; j++ {
+				v := g.Any()
+				if g.R.Intn(3) == 0 {
+					v = g.RAW()
+				}
+				dg = append(dg, encodeWith(v)...)
+			}
+			scriptRecombine(s, g, dg)
+		}
 	}
 }
